@@ -27,10 +27,15 @@ Rep(x, n) == [i \in 1..n |-> x]
 BlockAt(s, i, bs) == Slice(s, (i - 1) * bs + 1, i * bs)
 NBlocks(s, bs)    == Len(s) \div bs
 
-RECURSIVE CommonFrom(_, _, _, _)
-CommonFrom(a, b, i, n) == IF i > n \/ a[i] # b[i] THEN i - 1 ELSE CommonFrom(a, b, i + 1, n)
+RECURSIVE CommonBin(_, _, _, _)
+(* a and b agree on the first lo elements; the answer lies in lo..hi (binary search on native equality) *)
+CommonBin(a, b, lo, hi) ==
+  IF lo = hi THEN lo
+  ELSE LET mid == (lo + hi + 1) \div 2
+       IN  IF SubSeq(a, lo + 1, mid) = SubSeq(b, lo + 1, mid) THEN CommonBin(a, b, mid, hi)
+           ELSE CommonBin(a, b, lo, mid - 1)
 (* length of the longest common prefix *)
-CommonLen(a, b) == CommonFrom(a, b, 1, Min(Len(a), Len(b)))
+CommonLen(a, b) == CommonBin(a, b, 0, Min(Len(a), Len(b)))
 
 IsPrefixOf(p, s) == Len(p) <= Len(s) /\ SubSeq(s, 1, Len(p)) = p
 
